@@ -218,7 +218,7 @@ bool RelayServer::handle_write(const std::shared_ptr<ClientSession>& session) {
 
 void RelayServer::process_protocol(const std::shared_ptr<ClientSession>& session) {
     bool progress = true;
-    while (progress) {
+    while (progress && !session->closing) {
         progress = false;
         if (session->state == SessionState::AwaitingIdentity) {
             if (session->read_buffer.size() >= kPeerIdBytes) {
